@@ -249,13 +249,47 @@ def run_case(case, acc):
             checks.append(("status", lambda: pr.status(), DOC_STATUS[case["state"]], None))
         else:
             checks.append(("status", lambda: isinstance(pr.status(), str), True, None))
+        plain_bad = set()
         for getter, fn, want, feature in checks:
             try:
                 got = fn()
             except Exception as e:  # noqa: BLE001
                 viols.append((f"{getter}_exception:{type(e).__name__}", f"{getter} raised {e!r} comm={comm!r}"))
+                plain_bad.add(getter)
                 continue
+            n0 = len(viols)
             cmp(getter, got, want, feature)
+            if len(viols) != n0:
+                plain_bad.add(getter)
+        # the same record read through the other two call paths: inside a oneshot() block (shared cached parse, getters
+        # in the opposite order so a different one fills the cache) and through as_dict()
+        with pr.oneshot():
+            for getter, fn, want, feature in reversed(checks):
+                if getter in plain_bad:
+                    continue
+                acc.count("getter_comparisons_in_oneshot")
+                try:
+                    got = fn()
+                except Exception as e:  # noqa: BLE001
+                    viols.append((f"{getter}_exception:{type(e).__name__}:in_oneshot_block", f"{getter} raised {e!r} comm={comm!r}"))
+                    continue
+                if got != want:
+                    viols.append((f"{getter}_wrong:in_oneshot_block", f"{getter}: got {got!r} want {want!r} comm={comm!r}"))
+        names = [g for g, _f, _w, _x in checks if g not in plain_bad and g != "create_time"]
+        if case["state"] not in DOC_STATUS and "status" in names:
+            names.remove("status")
+        try:
+            d = pr.as_dict(attrs=names)
+        except Exception as e:  # noqa: BLE001
+            viols.append((f"as_dict_exception:{type(e).__name__}", f"as_dict({names}) raised {e!r} comm={comm!r}"))
+        else:
+            for getter, _fn, want, _x in checks:
+                if getter in names:
+                    acc.count("getter_comparisons_via_as_dict")
+                    got = d.get(getter)
+                    got = tuple(got) if isinstance(got, tuple) else got
+                    if got != want:
+                        viols.append((f"{getter}_wrong:via_as_dict", f"{getter}: got {got!r} want {want!r} comm={comm!r}"))
         # threads
         try:
             got = pr.threads()
